@@ -359,6 +359,7 @@ fn main() {
     let mut threads_mask: u64 = u64::MAX;
     let mut max_ops: usize = usize::MAX;
     let mut list = false;
+    let mut population_arg: usize = 0;
     let mut print_refs = false;
     let mut expect: Option<u64> = None;
     let mut i = 2;
@@ -376,6 +377,10 @@ fn main() {
                 list = true;
                 i += 1;
             }
+            "--population" => {
+                population_arg = args[i + 1].parse().unwrap_or(0);
+                i += 2;
+            }
             "--print-refs" => {
                 print_refs = true;
                 i += 1;
@@ -388,9 +393,11 @@ fn main() {
         }
     }
     let mut r = R(seed ^ 0x6d697269);
-    let contention = seed % 3 == 2;
-    let sizes = !contention && seed % 5 == 3;
-    let n_threads = if contention || sizes { 0 } else { 2 + r.below(3) as usize };
+    // population profile (--population N, chosen by the driver): N simultaneously alive caller threads
+    let population: usize = population_arg;
+    let contention = population == 0 && seed % 3 == 2;
+    let sizes = population == 0 && !contention && seed % 5 == 3;
+    let n_threads = if contention || sizes || population > 0 { 0 } else { 2 + r.below(3) as usize };
     // at most two threads may use the per-thread projection (its cold start dominates the cost)
     let mut tl_budget = 2;
     let mut plans: Vec<Vec<Op>> = Vec::new();
@@ -413,13 +420,26 @@ fn main() {
             p.truncate(max_ops.max(1));
         }
     }
+    if population > 0 {
+        // Thread population (seeded change c13-an: a bounded pool of per-thread projections handed
+        // out round-robin, so that the k-th and the (k+128)-th caller thread share one instance).
+        // All threads are spawned without any join in between, so no two of them are ordered by
+        // happens-before: per-thread state that is handed to a second thread while (or after) the
+        // first one used it is a data race for Miri's detector, whatever the values are. Every
+        // thread makes one cheap call through the per-thread projection; the first one makes two.
+        plans = Vec::new();
+        for t in 0..population {
+            let op = Op::TlForward(((t % 7) as f64 * 0.7 - 2.0).to_bits(), (0.05 + (t % 5) as f64 * 0.04).to_bits(), 0);
+            plans.push(if t == 0 { vec![op.clone(), Op::TlForward((1.3f64).to_bits(), (0.21f64).to_bits(), 0), op] } else { vec![op] });
+        }
+    }
     if contention {
         plans = contention_plans(&mut r);
         for p in plans.iter_mut() {
             p.truncate(max_ops.max(1));
         }
     }
-    let plans: Vec<Vec<Op>> = plans.into_iter().enumerate().filter(|(t, _)| threads_mask & (1 << t) != 0).map(|(_, p)| p).collect();
+    let plans: Vec<Vec<Op>> = plans.into_iter().enumerate().filter(|(t, _)| *t >= 64 || threads_mask & (1 << t) != 0).map(|(_, p)| p).collect();
     if list {
         for (t, p) in plans.iter().enumerate() {
             println!("t{}: {:?}", t, p);
@@ -475,7 +495,7 @@ fn main() {
     let mut ref_hash: u64 = 0xcbf29ce484222325;
     // contention profile: all references in ONE brand-new thread (its cold start is paid once);
     // otherwise each op is the first call of its own brand-new thread
-    let shared_refs: Vec<Result<Vec<u64>, String>> = if contention {
+    let shared_refs: Vec<Result<Vec<u64>, String>> = if contention || population > 0 {
         let d2 = distinct.clone();
         std::thread::spawn(move || d2.iter().map(exec).collect()).join().expect("reference thread panicked")
     } else {
@@ -483,7 +503,7 @@ fn main() {
     };
     for (di, op) in distinct.iter().enumerate() {
         let o2 = op.clone();
-        let reference = if contention {
+        let reference = if contention || population > 0 {
             shared_refs[di].clone()
         } else {
             std::thread::spawn(move || exec(&o2)).join().expect("reference thread panicked")
